@@ -718,6 +718,12 @@ func TestDebugUpgraderFaithful(t *testing.T) {
 		c := drawConfig(t)
 		base := runPair(c, nil, nil)
 		req := mutateRequest(t, base.req)
+		if k := rapid.SampledFrom([]int{0, 0, 0, 1, 7, 300}).Draw(t, "body"); k > 0 && bytes.HasSuffix(req, []byte("\r\n\r\n")) {
+			// a request that carries a body (HTTP message framing does not depend on the method): the body is
+			// part of "the request bytes exchanged" however it is split from the head by the transport
+			req = append(append(req[:len(req)-2:len(req)-2], fmt.Sprintf("Content-Length: %d\r\n\r\n", k)...), bytes.Repeat([]byte{'B'}, k)...)
+			hx.Class("debug-upgrader/request-with-body")
+		}
 		chunks := gen.Chunks(t, "chunks")
 		plainRec := tx.NewRec()
 		dbgRec := tx.NewRec()
